@@ -506,4 +506,30 @@ def findValues (sorted : Bool) (keys vals : Array Val) (key : Val) : List Val :=
   else
     ((List.range keys.size).filter (eqAt keys key)).filterMap (vals[·]?)
 
+/-! ## a collection feature inside a mutable world -/
+
+/-- `ingest.CollectionFeature`: keys, values and the `sorted` flag (set by `Sort()`, read by FindValue) -/
+structure CF where
+  keys : Array Val
+  vals : Array Val
+  sorted : Bool
+  deriving DecidableEq, Repr
+
+/-- `MergeFromCollectionFeature`: keys and values are copied from `other`, and so is `other.sorted` -/
+def CF.mergeFrom (_c other : CF) : CF := { keys := other.keys, vals := other.vals, sorted := other.sorted }
+
+/-- `Clone` -/
+def CF.clone (c : CF) : CF := { keys := c.keys, vals := c.vals, sorted := c.sorted }
+
+/-- `AddFeature` of a collection feature on BasicMutableWorld / MutableOverlayWorld (`ModifiedFeatures.Update`):
+a feature already stored under the ID (in this world / this overlay) is merged into, otherwise a clone is stored.
+A feature that only lives in an overlay's base is not touched: the overlay stores a clone that shadows it. -/
+def worldAdd (stored : Option CF) (f : CF) : Option CF :=
+  match stored with
+  | some e => some (e.mergeFrom f)
+  | none => some f.clone
+
+def CF.findValue (c : CF) (key : Val) : Option Val := B6.Model.Collections.findValue c.sorted c.keys c.vals key
+def CF.findValues (c : CF) (key : Val) : List Val := B6.Model.Collections.findValues c.sorted c.keys c.vals key
+
 end B6.Model.Collections
